@@ -18,6 +18,8 @@ import (
 	"runtime"
 	"sort"
 	"strings"
+	"sync"
+	"sync/atomic"
 	"time"
 )
 
@@ -77,6 +79,11 @@ func (x *Exec) choose(n int, label string, costs bool) int {
 	x.choices = append(x.choices, c)
 	x.points = append(x.points, point{n, costs})
 	x.labrec = append(x.labrec, labelRec{label, c, n})
+	atomic.AddInt64(&x.e.progress, 1)
+	x.e.curMu.Lock()
+	x.e.curChoices = append(x.e.curChoices[:0], x.choices...)
+	x.e.curLabels = append(x.e.curLabels[:0], x.labrec...)
+	x.e.curMu.Unlock()
 	if costs && c != 0 {
 		x.devs++
 	}
@@ -188,6 +195,11 @@ type Explorer struct {
 	Deadline   time.Time
 	MaxSamples int
 	TableOut   map[string]string
+
+	progress   int64 // atomically incremented at every choice point
+	curMu      sync.Mutex
+	curChoices []int
+	curLabels  []labelRec
 
 	stats    Stats
 	seen     map[uint64]int
@@ -490,3 +502,21 @@ func (x *Exec) OutcomeStr() string { return x.outcome }
 
 // IsSentinel reports whether a recovered value is the engine's own control-flow panic.
 func IsSentinel(r interface{}) bool { _, ok := r.(pruneT); return ok }
+
+// Progress returns a counter that grows while the exploration is alive.
+func (e *Explorer) Progress() int64 { return atomic.LoadInt64(&e.progress) }
+
+// Current returns the choices of the execution in progress (for a hang report).
+func (e *Explorer) Current() ([]int, []string) {
+	e.curMu.Lock()
+	defer e.curMu.Unlock()
+	c := append([]int{}, e.curChoices...)
+	var l []string
+	for _, r := range e.curLabels {
+		l = append(l, fmt.Sprintf("%s=%d/%d", r.label, r.c, r.n))
+	}
+	return c, l
+}
+
+// Snapshot returns the stats and violations gathered so far (used when a hang aborts the run).
+func (e *Explorer) Snapshot() (Stats, []Violation) { return e.stats, e.Violations() }
